@@ -1,0 +1,17 @@
+//go:build verif
+
+package jsonclient
+
+import "time"
+
+// BackoffStateForVerif projects the shared back-off state (multiplier and the
+// instant before which no request is sent) for verification harnesses.
+func (c *JSONClient) BackoffStateForVerif() (multiplier uint, notBefore time.Time) {
+	b, ok := c.backoff.(*backoff)
+	if !ok {
+		return 0, time.Time{}
+	}
+	b.mu.RLock()
+	defer b.mu.RUnlock()
+	return b.multiplier, b.notBefore
+}
